@@ -217,11 +217,48 @@ def combineSteps : List Step :=
   sipSteps ++ sipSteps ++ [xorc a A0, xorc b A1] ++ sipSteps ++ sipSteps ++
     [xor a c, xor b d, xmul c a G0, xmul d b G1] ++ sipSteps
 
+section
+open Lane Step
+variable (r : List Step) (x0 x1 x2 x3 : Nat)
+theorem rs_add_ab : runSteps (add a b :: r) ⟨x0,x1,x2,x3⟩ = runSteps r ⟨wadd x0 x1,x1,x2,x3⟩ := rfl
+theorem rs_rot_b (k : Nat) : runSteps (rot b k :: r) ⟨x0,x1,x2,x3⟩ = runSteps r ⟨x0,rotl x1 k,x2,x3⟩ := rfl
+theorem rs_xor_ba : runSteps (xor b a :: r) ⟨x0,x1,x2,x3⟩ = runSteps r ⟨x0,x1 ^^^ x0,x2,x3⟩ := rfl
+theorem rs_rot_a (k : Nat) : runSteps (rot a k :: r) ⟨x0,x1,x2,x3⟩ = runSteps r ⟨rotl x0 k,x1,x2,x3⟩ := rfl
+theorem rs_add_cd : runSteps (add c d :: r) ⟨x0,x1,x2,x3⟩ = runSteps r ⟨x0,x1,wadd x2 x3,x3⟩ := rfl
+theorem rs_rot_d (k : Nat) : runSteps (rot d k :: r) ⟨x0,x1,x2,x3⟩ = runSteps r ⟨x0,x1,x2,rotl x3 k⟩ := rfl
+theorem rs_xor_dc : runSteps (xor d c :: r) ⟨x0,x1,x2,x3⟩ = runSteps r ⟨x0,x1,x2,x3 ^^^ x2⟩ := rfl
+theorem rs_add_ad : runSteps (add a d :: r) ⟨x0,x1,x2,x3⟩ = runSteps r ⟨wadd x0 x3,x1,x2,x3⟩ := rfl
+theorem rs_xor_da : runSteps (xor d a :: r) ⟨x0,x1,x2,x3⟩ = runSteps r ⟨x0,x1,x2,x3 ^^^ x0⟩ := rfl
+theorem rs_add_cb : runSteps (add c b :: r) ⟨x0,x1,x2,x3⟩ = runSteps r ⟨x0,x1,wadd x2 x1,x3⟩ := rfl
+theorem rs_xor_bc : runSteps (xor b c :: r) ⟨x0,x1,x2,x3⟩ = runSteps r ⟨x0,x1 ^^^ x2,x2,x3⟩ := rfl
+theorem rs_rot_c (k : Nat) : runSteps (rot c k :: r) ⟨x0,x1,x2,x3⟩ = runSteps r ⟨x0,x1,rotl x2 k,x3⟩ := rfl
+theorem rs_nil (s : St) : runSteps [] s = s := rfl
+end
+
+theorem sipround_eq_steps (s : St) : sipround s = runSteps sipSteps s := by
+  cases s
+  rw [sipSteps, rs_add_ab, rs_rot_b, rs_xor_ba, rs_rot_a, rs_add_cd, rs_rot_d, rs_xor_dc, rs_add_ad, rs_rot_d,
+    rs_xor_da, rs_add_cb, rs_rot_b, rs_xor_bc, rs_rot_c, rs_nil]
+  rfl
+
+open Lane Step in
+theorem asym_eq_steps (t : St) : asym t = runSteps [xorc a A0, xorc b A1] t := by
+  cases t; rfl
+
+open Lane Step in
+theorem crossMix_eq_steps (t : St) :
+    crossMix t = runSteps [xor a c, xor b d, xmul c a G0, xmul d b G1] t := by
+  cases t; rfl
+
 theorem runSteps_append (l r : List Step) (s : St) :
     runSteps (l ++ r) s = runSteps r (runSteps l s) := by
   induction l generalizing s with
   | nil => rfl
   | cons st l ih => simp only [List.cons_append, runSteps_cons, ih]
+
+theorem combineMix_eq_steps (s : St) : combineMix s = runSteps combineSteps s := by
+  simp only [combineSteps, runSteps_append, ← sipround_eq_steps, ← asym_eq_steps, ← crossMix_eq_steps,
+    combineMix]
 
 theorem sipSteps_ok : ∀ st ∈ sipSteps, st.Ok := by
   intro st h
